@@ -422,6 +422,8 @@ func getFloat64(v any) (float64, error) {
 		return float64(val), nil
 	case float64:
 		return val, nil
+	case json.Number:
+		return val.Float64()
 	default:
 		return 0, NewErrUnexpectedType[float64]("field", v)
 	}
@@ -445,6 +447,12 @@ func getFloat32(v any) (float32, error) {
 		return val, nil
 	case float64:
 		return float32(val), nil
+	case json.Number:
+		f64, err := val.Float64()
+		if err != nil {
+			return 0, err
+		}
+		return float32(f64), nil
 	default:
 		return 0, NewErrUnexpectedType[float32]("field", v)
 	}
@@ -462,6 +470,8 @@ func getInt64(v any) (int64, error) {
 		return val, nil
 	case float64:
 		return int64(val), nil
+	case json.Number:
+		return val.Int64()
 	default:
 		return 0, NewErrUnexpectedType[int64]("field", v)
 	}
